@@ -51,6 +51,9 @@ pub fn corpus(thorough: bool) -> Vec<Job> {
 		for s in &seeds {
 			jobs.push(Job { input: s.clone(), src: f, origin: "seed" });
 		}
+		for s in gen::linebreak_variants(f) {
+			jobs.push(Job { input: s, src: f, origin: "seed-crlf/cr" });
+		}
 		if f == F::Yaml {
 			// multi-byte characters across the parser's / BufReader's buffer edges, plenty of input after them
 			for boundary in [8192usize, 16384, 24576] {
@@ -78,6 +81,15 @@ pub fn corpus(thorough: bool) -> Vec<Job> {
 				assert!(s.len() == size);
 				jobs.push(Job { input: s.into_bytes(), src: f, origin: "near-2MiB" });
 			}
+		}
+		// exact sizes around every buffer size: a leading comment block / the first document of a stream
+		if f == F::Yaml {
+			for l in gen::yaml_layouts(thorough) {
+				jobs.push(Job { input: l.bytes, src: f, origin: "size-ladder" });
+			}
+		}
+		for l in gen::sized_streams(f, thorough) {
+			jobs.push(Job { input: l.bytes, src: f, origin: "size-ladder" });
 		}
 		let max_edit = if thorough { 400 } else { 48 };
 		let mut edits = vec![];
